@@ -145,6 +145,7 @@ def fams_c02(tier, seed):
             Family("order5", "exh", "SyvAdc", "1,2", depth=5, configs=("w:s", "l:a")),
             Family("cancel6", "exh", "Avd", "0,1", depth=6, configs=("w:a",)),
             Family("pending6", "exh", "PSvd", "0,1,2", depth=6, configs=("w:s", "l:a")),
+            Family("pendingRT5", "exh", "PSVD", "2", depth=5, configs=("w:a",)),
             Family("rand-order", "rand", "STYyRUvdABMc", "0,1,2,u", length=40, n=3000, configs=("w:s", "l:a", "b:s")),
         ]
     return [
@@ -615,12 +616,12 @@ for _pid, _spec in PROPS.items():
 # further theorem files (each ends with its own `#print axioms` audit)
 EXTRA_FILES = {
     "C06": ["Kanal/Props/C06Fair.lean", "Kanal/Props/C06Chan.lean", "Kanal/Props/C06Async.lean",    # eventual completion under weak fairness
-            "Kanal/TieProto.lean", "Kanal/ProtoSim.lean"],
+            "Kanal/TieProto.lean", "Kanal/ProtoSim.lean", "Kanal/TiePaths.lean"],
     "C18": ["Kanal/Bridge.lean", "Kanal/Bridge2.lean"],                                                                  # Fine read sequentially = Spec.step
     "C03": ["Kanal/Sections.lean", "Kanal/SpecSections.lean"],
     # translated signal.rs / mutex.rs / spin_cond conform to SigM / MutexM (TieProto), and conformance is adequate (ProtoSim)
-    "C07": ["Kanal/TieProto.lean", "Kanal/ProtoSim.lean"],
-    "C17": ["Kanal/TieProto.lean", "Kanal/ProtoSimMutex.lean"],
+    "C07": ["Kanal/TieProto.lean", "Kanal/ProtoSim.lean", "Kanal/TiePaths.lean"],
+    "C17": ["Kanal/TieProto.lean", "Kanal/ProtoSimMutex.lean", "Kanal/TiePaths.lean"],
     "C13": ["Kanal/TieProto.lean"],            # wait_timeout / is_terminated
     "C16": ["Kanal/TieProto.lean"],            # poll, will_wake, register_waker, the constructors (a signal starts LOCKED)
     "C15": ["Kanal/TieProto.lean"],            # async_blocking_wait in Drop
